@@ -746,6 +746,27 @@ fn main() {
             }
             println!("ok polygon validation");
         }
+        "interior_point_scan_line" => {
+            use geo::{Contains, InteriorPoint, Intersects};
+            use geo_types::{LineString, Polygon};
+            // polygons with a vertex at half height and further vertices between it and the top / bottom
+            let ring = |v: Vec<(f64, f64)>| -> LineString<f64> { v.into() };
+            let cases = vec![
+                Polygon::new(ring(vec![(0.0, 0.0), (10.0, 0.0), (10.0, 4.0), (10.0, 8.0), (0.0, 8.0), (0.0, 0.0)]),
+                             vec![ring(vec![(2.0, 2.0), (8.0, 2.0), (8.0, 3.0), (2.0, 3.0), (2.0, 2.0)])]),
+                Polygon::new(ring(vec![(0.0, 0.0), (10.0, 0.0), (10.0, 8.0), (0.0, 8.0), (0.0, 0.0)]),
+                             vec![ring(vec![(2.0, 2.0), (8.0, 2.0), (8.0, 3.0), (2.0, 3.0), (2.0, 2.0)]), ring(vec![(4.0, 6.0), (5.0, 4.0), (6.0, 6.0), (4.0, 6.0)])]),
+                Polygon::new(ring(vec![(0.0, 2.0), (6.0, 2.0), (6.0, 0.0), (10.0, 0.0), (10.0, 4.0), (10.0, 8.0), (0.0, 8.0), (0.0, 2.0)]), vec![]),
+                Polygon::new(ring(vec![(0.0, 0.0), (8.0, 2.0), (0.0, 4.0), (3.0, 3.0), (0.0, 0.0)]), vec![]),
+            ];
+            for p in &cases {
+                match p.interior_point() {
+                    Some(q) if p.intersects(&q) && p.contains(&q) => {}
+                    other => fail(format!("interior_point of {:?} = {:?}: not strictly inside", p, other)),
+                }
+            }
+            println!("ok interior point scan line");
+        }
         _ => {
             eprintln!("unknown op {op}");
             std::process::exit(4);
